@@ -7,6 +7,8 @@ pub mod c02;
 pub mod c03;
 pub mod c04;
 pub mod c05;
+pub mod c07;
+pub mod c08;
 pub mod c09;
 pub mod c12;
 pub mod c13;
@@ -20,6 +22,8 @@ pub fn all() -> Vec<Box<dyn Property>> {
         Box::new(c03::prop()),
         Box::new(c04::prop()),
         Box::new(c05::prop()),
+        Box::new(c07::prop()),
+        Box::new(c08::prop()),
         Box::new(c09::prop()),
         Box::new(c12::prop()),
         Box::new(c13::prop()),
@@ -30,6 +34,9 @@ pub fn all() -> Vec<Box<dyn Property>> {
 }
 
 /// Extra sub commands (worker children, server children).
-pub fn extra_command(_name: &str, _args: &[String]) -> Option<i32> {
-    None
+pub fn extra_command(name: &str, args: &[String]) -> Option<i32> {
+    match name {
+        "c07-worker" => Some(c07::worker_main(args)),
+        _ => None,
+    }
 }
